@@ -18,7 +18,7 @@ RULE = ("random parent-closed topologies (2..12 nodes, depth <= 4; chains, fans,
         "no-misdelivery are judged. Non-trivial: >=1 frame crossed the air and quiescence was "
         "reached; distinct = distinct (topology shape, src/dst levels, hops, length class, "
         "type class, profile class, medium).")
-RULE += (" Later rounds added: re-used header objects (identity = origin, frame id, embedded message id), a relay whose application stops reading, multicast_level re-assigned on relays, systematic sweeps (every type over a 3-hop route, every length over a direct link, a deep tree with level overrides), peek() before read(), networks whose address prefix and suffix bytes were assigned after construction.")
+RULE += (" Later rounds added: re-used header objects (identity = origin, frame id, embedded message id), a relay whose application stops reading, multicast_level re-assigned on relays, systematic sweeps (every type over a 3-hop route, every length over a direct link, a deep tree with level overrides), peek() before read(), networks whose address prefix and suffix bytes were assigned after construction, senders whose application is busy for 15..60 ms after the call (what came back for them waits in the radio).")
 REQUIRED = {"delivered_exactly_once": 300, "bystanders_clean": 300, "write_true": 300,
             "onair_le_32": 300, "c07_listening": 3000}
 ASSUMPTIONS = ["ideal medium (no loss, no collisions) and homogeneous MCU profiles for the "
@@ -106,6 +106,10 @@ def gen_cases(ctx):
                 ms.update(dst=prev[-1]["dst"], type=prev[-1]["type"], reuse=True, len=max(4, n))
                 if prev[-1]["dst"] in frag_off or src in frag_off:
                     ms["len"] = min(ms["len"], 24)
+            if rng2.random() < 0.3 and not hostile:
+                # the sender's application is busy for a while after the call (it polls the network
+                # late: whatever came back for it meanwhile waits in its radio)
+                ms["busy_after"] = rng2.choice([15, 30, 60])
             msgs.append(ms)
         stall = None
         relays = [a for a in nodes if kinds[a] == "net" and any(net_ref.parent(b) == a for b in nodes if b)]
@@ -229,7 +233,10 @@ def _run(ctx, case, net):
             last_hdr[ms["src"]] = h
             ms["_fid"] = h.frame_id
             return nn.obj.send(h, payload)
-        net.steps.append({"who": ms["src"], "name": "send", "fn": fn, "deadline_ms": 8000})
+        if ms.get("busy_after"):
+            ctx.count("senders_busy_after_the_call")
+        net.steps.append({"who": ms["src"], "name": "send", "fn": fn, "deadline_ms": 8000,
+                          "busy_after_ms": ms.get("busy_after")})
         sent.append(payload)
     ok = net.run(wall_timeout=150)
     if not ok:
